@@ -25,7 +25,14 @@ def mesh1d(rng, kind=None, ncell=None, nmin=3, nmax=24, x0=True):
     if kind == "uni":
         xo = float(np.round(rng.uniform(-2, 2), 3)) if x0 else 0.0
         d["x0"] = xo
-        cls = fmesh.unimesh if rng.random() < 0.5 else fmesh.mesh1d          # alias and base class
+        r = rng.random()
+        if r < 0.15:      # a uniform mesh built by the morphing class with its default (identity) morph
+            d["class"] = "morphedmesh(identity)"
+            return fmesh.morphedmesh(ncell=nc, length=L, x0=xo), d
+        if r < 0.25:      # ... or by the refined class with ratio 1 (no origin argument)
+            d["class"] = "refinedmesh(ratio=1)"; d["x0"] = 0.0
+            return fmesh.refinedmesh(ncell=nc, length=L, ratio=1.0, nratioa=int(rng.integers(1, 4)), nratiob=int(rng.integers(1, 4))), d
+        cls = fmesh.unimesh if r < 0.6 else fmesh.mesh1d          # alias and base class
         d["class"] = cls.__name__
         return cls(ncell=nc, length=L, x0=xo), d
     if kind == "refined":
